@@ -206,48 +206,126 @@ theorem C08_posFilter_index (f : List Maze → Maze → List Maze → Bool) (ms 
     posFilter f [] ms = survivors f [] ms := posFilter_eq_survivors f ms []
 
 /-- `custom_maze_filter(pred)`: exactly the mazes satisfying the predicate, original order, as the SAME maze objects (a
-    sublist of the input's references); a fresh config cell with the record appended (a record WITHOUT `args`); nothing
+    sublist of the input's references); a fresh config cell with the record `{name, args = (), kwargs}` appended; nothing
     that existed before changes -/
 theorem C08_custom (h : Heap) (d : Nat) (fname : String) (p : Maze → Bool) (kw : List (String × PyLit)) (h' : Heap) (d' : Nat)
     (hs : customFilter h d fname p kw = .ok (h', d')) :
     ∃ ds c ms ds' c', h.view d = some (ds, c, ms) ∧ h'.view d' = some (ds', c', ms.filter p) ∧
       ds'.mazes.Sublist ds.mazes ∧ ds'.cfg = h.cfgs.length ∧ d' = h.dsets.length ∧
-      c'.applied = c.applied ++ [{ name := "__custom__:" ++ fname, args := none, kwargs := kw }] ∧
+      c'.applied = c.applied ++ [{ name := "__custom__:" ++ fname, args := some [], kwargs := kw }] ∧
       c'.nMazes = (ms.filter p).length ∧ c'.base = c.base ∧
       h.cfgs <+: h'.cfgs ∧ h'.mazes = h.mazes ∧ h.dsets <+: h'.dsets := by
   obtain ⟨ds, c, ms, keep, hv, _, rfl, hsub, hget, rfl⟩ := customFilter_spec hs
   refine ⟨ds, c, ms, { cfg := h.cfgs.length, mazes := keep, gmc := none },
-    { c with applied := c.applied ++ [{ name := "__custom__:" ++ fname, args := none, kwargs := kw }], nMazes := keep.length },
+    { c with applied := c.applied ++ [{ name := "__custom__:" ++ fname, args := some [], kwargs := kw }], nMazes := keep.length },
     hv, ?_, hsub, rfl, rfl, rfl, ?_, rfl, List.prefix_append _ _, rfl, List.prefix_append _ _⟩
   · simp [Heap.view, hget]
   · exact (getAll_length _ _ _ hget).symm
 
 /-! ## the input is left untouched -/
 
-/-- the operation is metadata collection (the one filter with a documented in-place mode) -/
-def Op.isCollect : Op → Bool
-  | .reg c => FName.ofString c.name == some .collectMeta
+private theorem prefix_of_getElem? {α} (l l' : List α) (hlen : l.length ≤ l'.length)
+    (h : ∀ b : Nat, b < l.length → l'[b]? = l[b]?) : l <+: l' := by
+  rw [List.prefix_iff_eq_take]
+  apply List.ext_getElem?
+  intro b
+  by_cases hb : b < l.length
+  · rw [List.getElem?_take_of_lt hb, h b hb]
+  · rw [List.getElem?_eq_none_iff.2 (by omega), List.getElem?_eq_none_iff.2 (by simp; omega)]
+
+/-- `collect_generation_meta(inplace=False)`, whether or not metadata was collected before: every existing object is
+    untouched (old heap = prefix of the new one), the result is a NEW dataset object with a NEW config cell.  Not yet
+    collected: the loop writes only to the freshly allocated copies.  Already collected: a plain deep copy (`Copied`). -/
+theorem C08_collect_copy_untouched (np : Percentile) (h : Heap) (d : Nat) (cl ip af : PyLit) (r : FilterRec) (h' : Heap) (d' : Nat)
+    (ds : DS) (c : Cfg) (ms : List Maze) (hv : h.view d = some (ds, c, ms)) (hip : truthy ip = false)
+    (hs : regStep np h d .collectMeta [cl, ip, af] r = .ok (h', d')) :
+    h.cfgs <+: h'.cfgs ∧ h.mazes <+: h'.mazes ∧ h.dsets <+: h'.dsets ∧ d' = h.dsets.length ∧
+    (∃ ds', h'.dsets[d']? = some ds' ∧ ds'.cfg = h.cfgs.length) := by
+  cases hg : ds.gmc with
+  | some g0 =>
+    have hcop : Copied h c h' d' ms (some g0) r := regStep_of_copyNew hs (by
+      intro h1 nd hm
+      simp only [method, hv, collectMethod, hg, Option.isSome_some, if_true, hip, Bool.false_eq_true, if_false] at hm
+      exact hm)
+    obtain ⟨⟨ds', c', hv', _, _, _, _, hcfg, _, _⟩, hd, p1, p2, p3, _⟩ := C08_copied_spec h d ds c ms h' d' ms (some g0) r hv hcop
+    exact ⟨p1, p2, p3, hd, ds', (view_cfgOf hv').2.1, hcfg⟩
+  | none =>
+    unfold regStep at hs
+    split at hs
+    · cases hs
+    · next h1 nd hm =>
+      simp only [method, hv, collectMethod, hg, Option.isSome_none, Bool.false_eq_true, if_false, hip] at hm
+      split at hm
+      · cases hm
+      · split at hm
+        · cases hm
+        · split at hm
+          · cases hm
+          · next h1' nd' hcp =>
+            obtain ⟨_, rfl, rfl⟩ := copyNew_ok hcp
+            simp only [List.getElem?_concat_length] at hm
+            split at hm
+            · cases hm
+            · next mz g hl =>
+              simp only [Except.ok.injEq, Prod.mk.injEq] at hm
+              obtain ⟨rfl, rfl⟩ := hm
+              obtain ⟨rfl, ds2, c2, hds2, hcc2, e1, e2, e3⟩ := finish_cfgOf hs
+              obtain ⟨f1, _, f3⟩ := collectLoop_frame _ _ _ _ _ _ _ hl
+              have hfresh : ∃ ds', h'.dsets[h.dsets.length]? = some ds' ∧ ds'.cfg = h.cfgs.length :=
+                ⟨ds2, by rw [e1]; exact hds2, by simp at hds2; subst hds2; rfl⟩
+              simp at hds2
+              subst hds2
+              refine ⟨?_, ?_, ?_, rfl, hfresh⟩
+              · rw [e3]; simp
+              · rw [e2]
+                apply prefix_of_getElem? _ _ (by rw [f1]; simp)
+                intro b hb
+                rw [f3 b (by simp [List.mem_range'_1]; omega), List.getElem?_append_left hb]
+              · rw [e1]; simp
+
+/-- the operation is `collect_generation_meta` called in its documented in-place mode: the bound value of `inplace`
+    (positional, keyword or the default from the generated table) is truthy -/
+def Op.inplaceCollect : Op → Bool
+  | .reg c =>
+    match FName.ofString c.name, filterTable.find? (fun e => e.1 == c.name) with
+    | some .collectMeta, some e =>
+      (match bindParams e.2.2 c.args c.kwargs with
+       | .ok [_, ip, _] => truthy ip
+       | _ => false)
+    | _, _ => false
   | .custom _ _ _ => false
 
-/-- every filter other than `collect_generation_meta` (all parameters, all datasets): the old heap is a prefix of the new one
-    (so the input dataset object, its maze list, every maze object, its config cell and every other existing object are
-    unchanged), the result is a NEW dataset object with a NEW config cell, and the input still views exactly as before -/
+/-- EVERY filter application other than the documented in-place metadata collection (all filters, all parameters, all
+    datasets; `collect_generation_meta(inplace=False)` included, collected before or not): the old heap is a prefix of the
+    new one (so the input dataset object, its maze list, every maze object, its config cell and every other existing object
+    are unchanged), the result is a NEW dataset object with a NEW config cell, and the input still views exactly as before -/
 theorem C08_input_untouched (np : Percentile) (h : Heap) (d : Nat) (op : Op) (h' : Heap) (d' : Nat)
-    (hop : op.isCollect = false) (hs : applyOp np h d op = .ok (h', d')) :
+    (hop : op.inplaceCollect = false) (hs : applyOp np h d op = .ok (h', d')) :
     h.cfgs <+: h'.cfgs ∧ h.mazes <+: h'.mazes ∧ h.dsets <+: h'.dsets ∧ d' = h.dsets.length ∧
     (∃ ds', h'.dsets[d']? = some ds' ∧ ds'.cfg = h.cfgs.length) ∧ h'.view d = h.view d := by
   cases op with
   | reg call =>
-    obtain ⟨f, vals, hf, hr⟩ := applyReg_regStep hs
-    have hne : f ≠ .collectMeta := by
-      intro e; subst e
-      simp [Op.isCollect, hf] at hop
+    obtain ⟨f, vals, e, hf, he, hb, hr⟩ := applyReg_regStep hs
     obtain ⟨h1, nd, hm⟩ := regStep_method hr
-    obtain ⟨ds, c, ms0, ms, g, hv, hc⟩ := method_copy hne hm
-    have hcop : Copied h c h' d' ms g call.record :=
-      regStep_of_copyNew hr (fun h1' nd' hm' => by rw [hm] at hm'; cases hm'; exact hc)
-    obtain ⟨⟨ds', c', hv', _, _, _, _, hcfg, _, _⟩, hd, p1, p2, p3, hvd⟩ := C08_copied_spec h d ds c ms0 h' d' ms g call.record hv hcop
-    refine ⟨p1, p2, p3, hd, ⟨ds', (view_cfgOf hv').2.1, hcfg⟩, by rw [hvd, hv]⟩
+    obtain ⟨ds, c, ms0, hv⟩ := method_view hm
+    by_cases hne : f = .collectMeta
+    · subst hne
+      simp only [Op.inplaceCollect, hf, he, hb] at hop
+      rcases vals with _ | ⟨cl, _ | ⟨ip, _ | ⟨af, _ | ⟨x, rest⟩⟩⟩⟩
+      · simp [method, hv] at hm
+      · simp [method, hv] at hm
+      · simp [method, hv] at hm
+      · simp only at hop
+        obtain ⟨p1, p2, p3, hd, hfresh⟩ := C08_collect_copy_untouched np h d cl ip af call.record h' d' ds c ms0 hv hop hr
+        exact ⟨p1, p2, p3, hd, hfresh, by rw [hv]; exact view_mono p1 p2 p3 hv⟩
+      · simp [method, hv] at hm
+    · obtain ⟨ds2, c2, ms2, ms, g, hv2, hc⟩ := method_copy hne hm
+      rw [hv] at hv2
+      cases hv2
+      have hcop : Copied h c h' d' ms g call.record :=
+        regStep_of_copyNew hr (fun h1' nd' hm' => by rw [hm] at hm'; cases hm'; exact hc)
+      obtain ⟨⟨ds', c', hv', _, _, _, _, hcfg, _, _⟩, hd, p1, p2, p3, hvd⟩ := C08_copied_spec h d ds c ms0 h' d' ms g call.record hv hcop
+      exact ⟨p1, p2, p3, hd, ⟨ds', (view_cfgOf hv').2.1, hcfg⟩, by rw [hvd, hv]⟩
   | custom fname p kw =>
     obtain ⟨ds, c, ms, ds', c', hv, hv', _, hcfg, hd, _, _, _, p1, p2, p3⟩ := C08_custom h d fname p kw h' d' hs
     have p2' : h.mazes <+: h'.mazes := by rw [p2]; exact List.prefix_refl _
@@ -430,12 +508,12 @@ theorem C08_from_config_eq_by_hand (np : Percentile) (h : Heap) (d : Nat) (h0 : 
 
 /-! ## the full statement, kept visible -/
 
-/-- C08 in the model, the clauses that are not per-filter: (1) nothing that existed is disturbed by any filter but metadata
-    collection, (2) provenance for every finite sequence of applications, (3) exact metadata counts.  The per-filter
-    selection clauses are `C08_path_length` … `C08_custom` (each with `C08_copied_spec`), the non-in-place collection is
-    `C08_collect_copy_untouched`, config-driven = by hand is `C08_from_config_eq_by_hand`; all are proved, none is partial. -/
+/-- C08 in the model, the clauses that are not per-filter: (1) nothing that existed is disturbed by any filter application
+    but the documented in-place metadata collection, (2) provenance for every finite sequence of applications, (3) exact metadata counts.  The per-filter
+    selection clauses are `C08_path_length` … `C08_custom` (each with `C08_copied_spec`), the in-place collection is
+    `C08_collect_inplace`, config-driven = by hand is `C08_from_config_eq_by_hand`; all are proved, none is partial. -/
 def C08_full : Prop :=
-  (∀ (np : Percentile) (h : Heap) (d : Nat) (op : Op) (h' : Heap) (d' : Nat), op.isCollect = false →
+  (∀ (np : Percentile) (h : Heap) (d : Nat) (op : Op) (h' : Heap) (d' : Nat), op.inplaceCollect = false →
       applyOp np h d op = .ok (h', d') →
       h.cfgs <+: h'.cfgs ∧ h.mazes <+: h'.mazes ∧ h.dsets <+: h'.dsets ∧ d' = h.dsets.length ∧ h'.view d = h.view d) ∧
   (∀ (np : Percentile) (ops : List Op) (h : Heap) (d : Nat) (h' : Heap) (d' : Nat) (c : Cfg),
@@ -456,52 +534,6 @@ theorem C08_full_holds : C08_full := by
     exact ⟨c', a, b, e⟩
   · intro clear allowFail mz as mz' g' hnd hall hl k v
     exact C08_meta_counts clear allowFail mz as mz' g' hnd hall hl k v
-
-private theorem prefix_of_getElem? {α} (l l' : List α) (hlen : l.length ≤ l'.length)
-    (h : ∀ b : Nat, b < l.length → l'[b]? = l[b]?) : l <+: l' := by
-  rw [List.prefix_iff_eq_take]
-  apply List.ext_getElem?
-  intro b
-  by_cases hb : b < l.length
-  · rw [List.getElem?_take_of_lt hb, h b hb]
-  · rw [List.getElem?_eq_none_iff.2 (by omega), List.getElem?_eq_none_iff.2 (by simp; omega)]
-
-/-- the non-in-place mode of `collect_generation_meta` (`inplace=False`, nothing collected yet): every existing object is
-    untouched; the loop writes only to the freshly allocated copies -/
-theorem C08_collect_copy_untouched (np : Percentile) (h : Heap) (d : Nat) (cl ip af : PyLit) (r : FilterRec) (h' : Heap) (d' : Nat)
-    (ds : DS) (c : Cfg) (ms : List Maze) (hv : h.view d = some (ds, c, ms)) (hg : ds.gmc = none) (hip : truthy ip = false)
-    (hs : regStep np h d .collectMeta [cl, ip, af] r = .ok (h', d')) :
-    h.cfgs <+: h'.cfgs ∧ h.mazes <+: h'.mazes ∧ h.dsets <+: h'.dsets ∧ d' = h.dsets.length := by
-  unfold regStep at hs
-  split at hs
-  · cases hs
-  · next h1 nd hm =>
-    simp only [method, hv, collectMethod, hg, Option.isSome_none, Bool.false_eq_true, if_false, hip] at hm
-    split at hm
-    · cases hm
-    · split at hm
-      · cases hm
-      · split at hm
-        · cases hm
-        · next h1' nd' hcp =>
-          obtain ⟨_, rfl, rfl⟩ := copyNew_ok hcp
-          simp only [List.getElem?_concat_length] at hm
-          split at hm
-          · cases hm
-          · next mz g hl =>
-            simp only [Except.ok.injEq, Prod.mk.injEq] at hm
-            obtain ⟨rfl, rfl⟩ := hm
-            obtain ⟨rfl, ds2, c2, hds2, hcc2, e1, e2, e3⟩ := finish_cfgOf hs
-            obtain ⟨f1, _, f3⟩ := collectLoop_frame _ _ _ _ _ _ _ hl
-            simp at hds2
-            subst hds2
-            refine ⟨?_, ?_, ?_, rfl⟩
-            · rw [e3]; simp
-            · rw [e2]
-              apply prefix_of_getElem? _ _ (by rw [f1]; simp)
-              intro b hb
-              rw [f3 b (by simp [List.mem_range'_1]; omega), List.getElem?_append_left hb]
-            · rw [e1]; simp
 
 /-! ## non-vacuity: a concrete heap on which every theorem's hypotheses are met and the functions do something -/
 
@@ -545,9 +577,23 @@ example : (match applyOp exNp exHeap 0 (call "collect_generation_meta" []) with
 example : (match runSeq exNp exHeap 0 [call "path_length" [.int 3], call "remove_duplicates" [], call "truncate_count" [.int 1]] with
     | .ok (h', d') => (cfgOf h' d').map (fun c => (c.applied.map (·.name), c.nMazes, d', (cfgOf h' 0).map (fun c0 => (c0.applied.length, c0.nMazes))))
     | .error _ => none) = some (["path_length", "remove_duplicates", "truncate_count"], 1, 3, some (0, 6)) := by decide
-/-- a custom filter leaves a record without `args`: the next copying filter fails as the real code does -/
-example : (match runSeq exNp exHeap 0 [.custom "lenmod" (fun _ => true) [], call "truncate_count" [.int 1]] with
+/-- after a custom filter (record with `args = ()`) further filters apply and provenance continues -/
+example : (match runSeq exNp exHeap 0 [.custom "lenmod" (fun m => m.sol.length % 2 == 0) [("k", .int 2)], call "truncate_count" [.int 1],
+                                       .custom "lenmod" (fun _ => true) []] with
+    | .ok (h', d') => (cfgOf h' d').map (fun c => (c.applied.map (fun r => (r.name, r.args)), c.nMazes))
+    | .error _ => none) = some ([("__custom__:lenmod", some []), ("truncate_count", some [.int 1]), ("__custom__:lenmod", some [])], 1) := by decide
+/-- a hand-written record without `args` still makes every deepcopy of the config fail (`_load_applied_filters`) -/
+example : (match applyOp exNp { exHeap with cfgs := [{ base := 7, nMazes := 6, applied := [{ name := "x", args := none, kwargs := [] }] }] } 0
+      (call "truncate_count" [.int 1]) with
     | .ok _ => none | .error e => some e) = some .ValueError := by decide
+/-- `collect_generation_meta(inplace=False)` on an already collected dataset: a NEW dataset object (#1) with a new config
+    cell carrying both records and the same collected metadata; the input's config keeps its single record -/
+example : (match runSeq exNp exHeap 0 [call "collect_generation_meta" [], call "collect_generation_meta" [] [("inplace", .bool false)]] with
+    | .ok (h', d') => (cfgOf h' d').map (fun c => (d', c.applied.length, (cfgOf h' 0).map (fun c0 => c0.applied.length),
+        (h'.dsets[d']?).map (fun ds => ds.gmc == (h'.dsets[0]?).bind (·.gmc)), h'.dsets.length))
+    | .error _ => none) = some (1, 2, some 1, some true, 2) := by decide
+example : (call "collect_generation_meta" [] [("inplace", .bool false)]).inplaceCollect = false ∧
+    (call "collect_generation_meta" []).inplaceCollect = true ∧ (call "collect_generation_meta" [.bool true, .int 0]).inplaceCollect = false := by decide
 /-- config-driven application on a dataset whose config lists two filters = by hand -/
 private def exCfgHeap : Heap :=
   { exHeap with cfgs := [{ base := 7, nMazes := 6, applied := [{ name := "path_length", args := some [.int 3], kwargs := [] },
